@@ -211,7 +211,8 @@ impl Display for PrettyDecimal {
                 // Here we assume mantissa is all ASCII (given it's [0-9.]+)
                 let mut initial_integer = true;
                 // caluclate the first comma position out of the integral portion digits.
-                let mut comma_pos = (mantissa.len() - scale) % 3;
+                // Note mantissa can be shorter than scale, e.g. 0.01 has mantissa "1".
+                let mut comma_pos = mantissa.len().saturating_sub(scale) % 3;
                 if comma_pos == 0 {
                     comma_pos = 3;
                 }
@@ -228,8 +229,13 @@ impl Display for PrettyDecimal {
                 if initial_integer {
                     write!(f, "0")?;
                 }
-                if !remainder.is_empty() {
-                    write!(f, ".{}", remainder)?;
+                if scale > 0 {
+                    write!(f, ".")?;
+                    // fills zeros dropped from mantissa, such as 0.01.
+                    for _ in remainder.len()..scale {
+                        write!(f, "0")?;
+                    }
+                    write!(f, "{}", remainder)?;
                 }
                 Ok(())
             }
